@@ -34,6 +34,8 @@ pub struct InvSpec {
     pub db_fault: Option<(usize, usize)>,
     /// run n2 with -C <dir> from the parent directory
     pub use_c: bool,
+    /// commands may report their dependencies as absolute paths (canonical or not), as compilers do for system headers
+    pub abs_reports: bool,
 }
 
 #[derive(Clone, Debug)]
@@ -371,7 +373,13 @@ impl Exec for Ex {
             let inc = sh.world.true_includes(step.uid);
             let mut v: Vec<String> = vec![];
             for d in inc.iter() {
-                v.push(respell(d, sh.tape.below(4)));
+                let k = sh.tape.below(if sh.spec.abs_reports { 6 } else { 4 });
+                let cwd = std::env::current_dir().map(|p| p.to_string_lossy().into_owned()).unwrap_or_default();
+                v.push(match k {
+                    4 => format!("{}/{}", cwd, d),
+                    5 => format!("{}/zz/../{}", cwd, d),
+                    _ => respell(d, k),
+                });
             }
             // compilers may list more than the command really depends on: declared inputs, the
             // same file twice, order-only inputs, unrelated headers -- but only files that exist
